@@ -67,7 +67,9 @@ type Conn struct {
 	DroppedWrites int64
 	// segmentation policy of the p2m direction for this connection
 	SegMode int
-	splits  int // split deliveries so far (bounded so that large bodies stay affordable)
+	// DeliveringAt: when MOSN wrote the first of the bytes now being handed to the peer (valid inside Peer.OnData)
+	DeliveringAt time.Duration
+	splits       int // split deliveries so far (bounded so that large bodies stay affordable)
 }
 
 const (
@@ -709,9 +711,13 @@ func (n *Net) exec(nc netCand) {
 		c.mu.Lock()
 		var data []byte
 		fin := false
+		c.DeliveringAt = -1
 		for len(c.m2p) > 0 && c.m2p[0].ready <= now {
 			sg := c.m2p[0]
 			c.m2p = c.m2p[1:]
+			if c.DeliveringAt < 0 {
+				c.DeliveringAt = sg.at
+			}
 			if sg.fin {
 				fin = true
 				break
